@@ -6,22 +6,22 @@ From Suiron Require Import Model.Term Model.Subst Model.Rename Model.Solve Proof
    disjunctions, not, time, built-ins, with or without cut flags. *)
 
 (* A request that reports "no answer" leaves the node dead ... *)
-Theorem C05_none_then_dead : forall kb fuel nd w nd' c w',
-  next kb fuel nd w = Ok (nd', None, c, w') -> dead nd'.
+Theorem C05_none_then_dead : forall kb bf fuel nd w nd' c w',
+  next kb bf fuel nd w = Ok (nd', None, c, w') -> dead nd'.
 Proof. exact none_then_dead. Qed.
 
 (* ... and a dead node answers every request with None, leaves the whole world as it was
    (no output, no variable id consumed, no read of the stop flag) and stays dead. *)
-Theorem C05_dead_stays : forall kb fuel nd w nd' r c w',
-  dead nd -> next kb fuel nd w = Ok (nd', r, c, w') -> r = None /\ c = false /\ w' = w /\ dead nd'.
+Theorem C05_dead_stays : forall kb bf fuel nd w nd' r c w',
+  dead nd -> next kb bf fuel nd w = Ok (nd', r, c, w') -> r = None /\ c = false /\ w' = w /\ dead nd'.
 Proof. exact dead_stays. Qed.
 
 (* Hence: after the first "no more answers", any number of further requests, with any fuel,
    from any world, all report none and change nothing. *)
-Theorem C05_exhausted_stays_exhausted : forall kb fuel nd w nd' c w',
-  next kb fuel nd w = Ok (nd', None, c, w') ->
+Theorem C05_exhausted_stays_exhausted : forall kb bf fuel nd w nd' c w',
+  next kb bf fuel nd w = Ok (nd', None, c, w') ->
   forall m fuel2 w2 rs nd2 w3,
-    ask_again kb fuel2 m nd' w2 = Ok (rs, nd2, w3) ->
+    ask_again kb bf fuel2 m nd' w2 = Ok (rs, nd2, w3) ->
     Forall (fun r => r = None) rs /\ w3 = w2.
 Proof. exact exhausted_stays_exhausted. Qed.
 
@@ -39,9 +39,9 @@ Definition C05_demo : bool :=
              ([97; 47; 49]%N, [mkRule a1 GNil])] in
   match make_base_node kb (GCall (TComplex [TAtom [113%N]; TVar 1 [36; 88]%N])) (mkWorld 1 false None []) with
   | Ok (nd, w) =>
-      match next kb 20 nd w with
+      match next kb 20 20 nd w with
       | Ok (nd1, None, false, w1) =>
-          match ask_again kb 20 2 nd1 w1 with
+          match ask_again kb 20 20 2 nd1 w1 with
           | Ok ([None; None], _, _) => true
           | _ => false
           end
@@ -52,10 +52,10 @@ Definition C05_demo : bool :=
 Example C05_witness : C05_demo = true.
 Proof. vm_compute. reflexivity. Qed.
 
-Check C05_exhausted_stays_exhausted : forall kb fuel nd w nd' c w',
-  next kb fuel nd w = Ok (nd', None, c, w') ->
+Check C05_exhausted_stays_exhausted : forall kb bf fuel nd w nd' c w',
+  next kb bf fuel nd w = Ok (nd', None, c, w') ->
   forall m fuel2 w2 rs nd2 w3,
-    ask_again kb fuel2 m nd' w2 = Ok (rs, nd2, w3) ->
+    ask_again kb bf fuel2 m nd' w2 = Ok (rs, nd2, w3) ->
     Forall (fun r => r = None) rs /\ w3 = w2.
 
 Print Assumptions C05_none_then_dead.
